@@ -81,7 +81,32 @@ def mutate(rng, text):
     return text[:i] + chr(rng.randrange(1, 256)) + text[i + 1:]
 
 
-DIAG = re.compile(r"^\(error |^At line \d+:|^At interactive input:", re.M)
+DIAG = re.compile(r"^\(error |^At line \d+:|^At interactive input:|^Syntax error at line \d+", re.M)
+
+
+def lexically_broken(text):
+    """unbalanced parentheses, or the text ends inside a string / quoted symbol, in opensmt's own lexical conventions
+    (comments to the end of the line, |...| symbols, "..." strings with backslash escapes): the scanner mirrored in Osmt/Pipe.lean"""
+    par, comment, qsym, string, esc = 0, False, False, False, False
+    for c in text:
+        if comment:
+            comment = c != "\n"; continue
+        if qsym:
+            qsym = c != "|"; continue
+        if string:
+            if esc: esc = False
+            elif c == "\\": esc = True
+            elif c == '"': string = False
+            continue
+        if c == ";": comment = True
+        elif c == "|": qsym = True
+        elif c == '"': string = True
+        elif c == "(": par += 1
+        elif c == ")":
+            par -= 1
+            if par < 0:
+                return True
+    return par != 0 or qsym or string
 
 
 def run_one(binary, data, mode, timeout):
@@ -114,10 +139,12 @@ def run_case(args):
     has_check = "check-sat" in text
     for mode in ("file", "pipe"):
         rc, out, err = run_one(binary, data, mode, 20 if has_check else 10)
+        if rc == "timeout" and not has_check:
+            rc, out, err = run_one(binary, data, mode, 30)          # once more, alone in time: the machine may be loaded
         res["modes"][mode] = rc
         if rc == "timeout":
             if not has_check:
-                res["problems"].append({"what": f"{mode} mode: a script without check-sat does not terminate within 10 s", "kind": "timeout"})
+                res["problems"].append({"what": f"{mode} mode: a script without check-sat does not terminate within 30 s", "kind": "timeout"})
             continue
         if rc not in (0, 1):
             res["problems"].append({"what": f"{mode} mode: abnormal termination (status {rc}): {(err.strip().splitlines() or [''])[-1][:200] if rc not in (98, 99) else [l for l in err.splitlines() if 'ERROR' in l or 'runtime error' in l][:1]}",
@@ -128,12 +155,7 @@ def run_case(args):
         if (rc == 0) != (ndiag == 0):
             res["problems"].append({"what": f"{mode} mode: exit status {rc} with {ndiag} diagnostics on standard output", "kind": "status",
                                     "stdout": out[-600:]})
-        try:
-            smtlib.parse_sexps(text)
-            broken = False
-        except smtlib.ParseError:
-            broken = True
-        if broken and ndiag == 0 and "(exit)" not in text:
+        if lexically_broken(text) and ndiag == 0 and "(exit)" not in text:
             res["problems"].append({"what": f"{mode} mode: lexically broken input (unbalanced parentheses / quotes) gets no diagnostic", "kind": "silent",
                                     "stdout": out[-300:]})
     return res
